@@ -1,6 +1,7 @@
 import Shm.Proto
 import Shm.Store.DiskView
 import Shm.CryptoMon
+import Shm.Model.Multi
 open Shm
 
 /-- model-side context of a call, printed with every mismatch so that the per-property judges can tell what the
@@ -46,6 +47,11 @@ structure Drv where
   pairs : Nat := 0
   mism : Nat := 0
   unparsed : Nat := 0
+  procs : List (Nat × State) := []   -- C15: the other processes on the same token directory (see Shm.Model.Multi); `st` is the one that ran last
+  cur : Nat := 0
+  mutated : Bool := false            -- C17: the files of the token directory are being damaged; the state model is not followed
+  expectValid : Option Nat := none   -- object files the independent decoder accepts, from the last dumpdir
+  armed : Bool := false              -- the next find must return exactly that many handles
 
 partial def loop (h : IO.FS.Stream) (d : Drv) (pendingOp : Option (List String)) : IO Drv := do
   let line ← h.getLine
@@ -58,8 +64,52 @@ partial def loop (h : IO.FS.Stream) (d : Drv) (pendingOp : Option (List String))
     match pendingOp with
     | none => IO.println s!"PROTOCOL line {d.lineNo}: result without operation"; loop h d none
     | some op =>
+      if d.mutated then
+        -- C17 loader correspondence: after arbitrary damage to the object files, a logged-in search for everything finds exactly the files that the
+        -- Lean decoder (`Shm.Store.loadsValid`, the model of ObjectFile::refresh over File::read*) accepts.  Nothing else is compared in this mode.
+        match op, res with
+        | ["dumpdir"], _rv :: _n :: rows =>
+          (match rows.mapM Shm.Store.parseDEntry with
+           | none => do
+             IO.println s!"UNPARSED line {d.lineNo}: dumpdir rows"
+             loop h { d with unparsed := d.unparsed + 1 } none
+           | some ents => do
+             let n := Shm.Store.countLoadable ents
+             IO.println s!"ok loadable:{if n == 0 then "none" else if n == (Shm.Store.objectFiles ents).length then "all" else "some"}"
+             loop h { d with expectValid := some n, pairs := d.pairs + 1 } none)
+        | ["nop", "expectcount"], _ => loop h { d with armed := true } none
+        | ["find", _, _], rv :: _ :: cnt :: _ =>
+          if d.armed then
+            (match d.expectValid, parseNat? rv, parseNat? cnt with
+             | some n, some 0, some c =>
+               if c == n then do
+                 IO.println s!"ok loadcount:agree"
+                 loop h { d with armed := false, pairs := d.pairs + 1 } none
+               else do
+                 IO.println s!"MISMATCH line {d.lineNo} cat=load op=find :: {" ".intercalate op} => {" ".intercalate (res.take 3)} :: object files accepted: decoder {n} library {c} :: ctx  modelrv=0"
+                 loop h { d with armed := false, mism := d.mism + 1, pairs := d.pairs + 1 } none
+             | _, _, _ => do
+               IO.println s!"ok loadcount:notcompared"
+               loop h { d with armed := false } none)
+          else do
+            IO.println s!"ok mutated:find"
+            loop h d none
+        | _, _ => do
+          IO.println s!"ok mutated:{op.headD "?"}"
+          loop h d none
+      else
       match op, res with
       | ["nop"], _ => loop h d none
+      | ["nop", "mutated"], _ => loop h { d with mutated := true } none
+      | ["proc", i], _ =>
+        (match parseNat? i with
+         | some k =>
+           let m : MState := { procs := d.procs, cur := d.cur, st := d.st }
+           let m' := m.switch k
+           loop h { d with procs := m'.procs, cur := m'.cur, st := m'.st, mon := [] } none
+         | none => do
+           IO.println s!"UNPARSED line {d.lineNo}: proc"
+           loop h { d with unparsed := d.unparsed + 1 } none)
       | ["wipe"], _ => loop h { d with st := {} } none
       | ["snapshot", name], _ => loop h { d with saved := (name, d.st) :: d.saved } none
       | ["restore", name], _ =>
